@@ -520,11 +520,25 @@ def subdomain_ids(repo, res):
     for ids, want in samples:
         key = f"{f.key}:negative-id-rejection:{ids}"
         res.ob(key)
-        env = {"itg_data": Node("IntegralData", subdomain_id=ids)}
+        env = {"itg_data": Node("IntegralData", subdomain_id=ids, integral_type="cell"), "itg_index": 0, "form_id": 0}
         try:
-            if mp is not None:
-                env["subdomain_ids"] = it.expr(mp.value, dict(env))
-            got = bool(it.truth(it.expr(guard.test, env)))
+            # the statements of the same block that precede the guard define the names it may use
+            blk = None
+            for n in ast.walk(f.node):
+                for fld in ("body", "orelse"):
+                    seq = getattr(n, fld, None)
+                    if isinstance(seq, list) and guard in seq:
+                        blk = seq
+            it.ctx.append(rep)
+            try:
+                for st in (blk[:blk.index(guard)] if blk else []):
+                    if isinstance(st, (ast.Assign, ast.AnnAssign)):
+                        it.stmt(st, env)
+                if mp is not None and "subdomain_ids" not in env:
+                    env["subdomain_ids"] = it.expr(mp.value, dict(env))
+                got = bool(it.truth(it.expr(guard.test, env)))
+            finally:
+                it.ctx.pop()
         except Raised as e:
             got = f"raises {e.what}"
         if got is not want:
